@@ -55,7 +55,34 @@ def soft_label(idx, n_classes):
     return v if n_classes > 1 else torch.ones(1)
 
 
-def make_dataset(n, n_classes, shapes, soft=False):
+def make_dataset(n, n_classes, shapes, soft=False, stored=False):
+    """stored=True: an in-memory dataset - the same tensor objects are handed out on every request"""
+    import torch
+    from kappadata.datasets.kd_dataset import KDDataset
+    d = _make_dataset(n, n_classes, shapes, soft)
+    if not stored:
+        return d
+    cls = type(d)
+    memo = {}
+    fx, fc = cls.getitem_x, cls.getitem_class
+
+    def getitem_x(self, idx, ctx=None):
+        k = ("x", int(idx))
+        if k not in memo:
+            memo[k] = fx(self, idx, ctx)
+        return memo[k]
+
+    def getitem_class(self, idx, ctx=None):
+        k = ("c", int(idx))
+        if k not in memo:
+            memo[k] = fc(self, idx, ctx)
+        return memo[k]
+
+    cls.getitem_x, cls.getitem_class = getitem_x, getitem_class
+    return d
+
+
+def _make_dataset(n, n_classes, shapes, soft=False):
     import torch
     from kappadata.datasets.kd_dataset import KDDataset
 
@@ -203,9 +230,9 @@ def seeded_agreement(cfg, p):
     n, n_classes, shape_name, prob, alpha = cfg[:5]
     soft = len(cfg) > 5 and cfg[5]
     unify = shape_name.startswith("differ")
-    for seed in range(8):
+    for seed, stored in [(sd, False) for sd in range(8)] + [(sd, True) for sd in range(3)]:
         def mk():
-            return KDMixWrapper(make_dataset(n, n_classes, SHAPES[shape_name], soft), mixup_p=prob, mixup_alpha=alpha,
+            return KDMixWrapper(make_dataset(n, n_classes, SHAPES[shape_name], soft, stored), mixup_p=prob, mixup_alpha=alpha,
                                 mixup_unify_shapes_mode="pad_or_cut_end" if unify else None, seed=seed)
         for i in range(n):
             p.evaluations += 1
@@ -225,7 +252,8 @@ def seeded_agreement(cfg, p):
             ok = (torch.equal(xj, x) and torch.equal(yj, y) and torch.equal(xj, xj2) and torch.equal(yj, yj2)
                   and torch.equal(a1[0], a2[0]) and torch.equal(a1[1], a2[1]) and torch.equal(a1[0], xj))
             if not ok:
-                p.violation("C11:seeded:image_label_joint_requests_disagree", dict(cfg=cfg, seed=seed, i=i, seeded=True),
+                p.violation("C11:seeded:image_label_joint_requests_disagree" + ("|in_memory_dataset" if stored else ""),
+                            dict(cfg=cfg, seed=seed, i=i, seeded=True),
                             f"cfg={cfg} seed={seed} i={i}: joint ({xj.flatten().tolist()}, {yj.tolist()}) vs image-only "
                             f"{x.flatten().tolist()} / label-only {y.tolist()} / reversed ({xj2.flatten().tolist()}, {yj2.tolist()})")
             else:
